@@ -111,12 +111,73 @@ Definition is_space (a : ascii) : bool :=
   let n := byte_of a in
   ((9 <=? n) && (n <=? 13) || (n =? 32))%N.
 
-Fixpoint trim_left (s : string) : string :=
+(* number of bytes of a white-space rune at the head of [s] (unicode.IsSpace on the decoded
+   rune): ASCII spaces, U+0085, U+00A0, U+1680, U+2000-200A, U+2028, U+2029, U+202F,
+   U+205F, U+3000; 0 if the head is not a space *)
+Definition space_prefix (s : string) : nat :=
   match s with
-  | String a r => if is_space a then trim_left r else s
-  | EmptyString => EmptyString
+  | String a r =>
+    if is_space a then 1%nat
+    else
+      let c := byte_of a in
+      match r with
+      | String b r2 =>
+        let d := byte_of b in
+        if ((c =? 194) && ((d =? 133) || (d =? 160)))%N then 2%nat
+        else match r2 with
+             | String e _ =>
+               let f := byte_of e in
+               if ((c =? 225) && (d =? 154) && (f =? 128))%N then 3%nat
+               else if ((c =? 226) && (d =? 128) &&
+                        (((128 <=? f) && (f <=? 138)) || (f =? 168) || (f =? 169) || (f =? 175)))%N then 3%nat
+               else if ((c =? 226) && (d =? 129) && (f =? 159))%N then 3%nat
+               else if ((c =? 227) && (d =? 128) && (f =? 128))%N then 3%nat
+               else 0%nat
+             | EmptyString => 0%nat
+             end
+      | EmptyString => 0%nat
+      end
+  | EmptyString => 0%nat
   end.
-Definition trim_right (s : string) : string := srev (trim_left (srev s)).
+
+(* the same, at the end of the string given reversed *)
+Definition space_suffix_rev (s : string) : nat :=
+  match s with
+  | String a r =>
+    if is_space a then 1%nat
+    else
+      let f := byte_of a in
+      match r with
+      | String b r2 =>
+        let d := byte_of b in
+        if ((d =? 194) && ((f =? 133) || (f =? 160)))%N then 2%nat
+        else match r2 with
+             | String e _ =>
+               let c := byte_of e in
+               if ((c =? 225) && (d =? 154) && (f =? 128))%N then 3%nat
+               else if ((c =? 226) && (d =? 128) &&
+                        (((128 <=? f) && (f <=? 138)) || (f =? 168) || (f =? 169) || (f =? 175)))%N then 3%nat
+               else if ((c =? 226) && (d =? 129) && (f =? 159))%N then 3%nat
+               else if ((c =? 227) && (d =? 128) && (f =? 128))%N then 3%nat
+               else 0%nat
+             | EmptyString => 0%nat
+             end
+      | EmptyString => 0%nat
+      end
+  | EmptyString => 0%nat
+  end.
+
+Fixpoint trim_with (pre : string -> nat) (fuel : nat) (s : string) : string :=
+  match fuel with
+  | O => s
+  | S f => match pre s with
+           | O => s
+           | n => trim_with pre f (sdrop n s)
+           end
+  end.
+Definition trim_left (s : string) : string := trim_with space_prefix (String.length s) s.
+Definition trim_right (s : string) : string :=
+  srev (trim_with space_suffix_rev (String.length s) (srev s)).
 Definition trim_space (s : string) : string := trim_right (trim_left s).
 
 Fixpoint mem_ascii (a : ascii) (set : string) : bool :=
